@@ -188,6 +188,34 @@ pub fn dbgerr(ws: &[&str]) -> String {
             }
         }
     }
+    // requests whose extension parameters are NAMED like the parameters that carry secrets: whatever the library makes of
+    // the collision (it sends both), nothing it returns shows the secrets
+    {
+        let c2 = client.clone().set_client_secret(ClientSecret::new(secs[0].clone())).set_auth_type(AuthType::RequestBody)
+            .set_introspection_url(IntrospectionUrl::new("https://t.example/i".to_string()).unwrap())
+            .set_revocation_url(RevocationUrl::new("https://t.example/r".to_string()).unwrap());
+        let http = |_r: HttpRequest| -> Result<HttpResponse, crate::kinds::FakeError> {
+            Ok(http::Response::builder().status(400).header("content-type", "application/json").body(b"{\"error\":\"invalid_request\"}".to_vec()).unwrap())
+        };
+        let r1 = c2.exchange_code(AuthorizationCode::new(secs[1].clone())).set_pkce_verifier(PkceCodeVerifier::new(secs[2].clone()))
+            .add_extra_param("code", "dup").add_extra_param("code_verifier", "dup").add_extra_param("client_secret", "dup").request(&http);
+        let rt = RefreshToken::new(secs[3].clone());
+        let r2 = c2.exchange_refresh_token(&rt).add_extra_param("refresh_token", "dup").request(&http);
+        let (u, p) = (ResourceOwnerUsername::new("user".to_string()), ResourceOwnerPassword::new(secs[1].clone()));
+        let r3 = c2.exchange_password(&u, &p).add_extra_param("password", "dup").request(&http);
+        let at = AccessToken::new(secs[2].clone());
+        let r4 = c2.introspect(&at).add_extra_param("token", "dup").request(&http);
+        let r5 = c2.revoke_token(StandardRevocableToken::AccessToken(AccessToken::new(secs[3].clone()))).unwrap().add_extra_param("token", "dup").request(&http);
+        if ws[0] == "1" {
+            out.push_str(&format!("{:#?}\n{:#?}\n{:#?}\n{:#?}\n{:#?}\n", r1, r2, r3, r4, r5));
+        } else {
+            out.push_str(&format!("{:?}\n{:?}\n{:?}\n{:?}\n{:?}\n", r1, r2, r3, r4, r5));
+        }
+        for e in [r1.err().map(|e| e.to_string()), r2.err().map(|e| e.to_string()), r3.err().map(|e| e.to_string()), r4.err().map(|e| e.to_string()), r5.err().map(|e| e.to_string())].into_iter().flatten() {
+            out.push_str(&e);
+            out.push('\n');
+        }
+    }
     // a token response whose application-defined extension type holds library secret types itself (an id token kept as an
     // AccessToken, a list of RefreshTokens): formatted, it reveals none of them
     #[derive(Debug, Clone, serde::Serialize, serde::Deserialize)]
